@@ -695,6 +695,11 @@ func (x *CommonLex) Next() rune {
 	if c == utf8.RuneError && size == 1 {
 		return xutils.ERR
 	}
+	if c == 0 {
+		// NUL is not a character an expression can contain, and it must
+		// not be mistaken for the end of the input (EOF is 0 as well).
+		return xutils.ERR
+	}
 	return c
 }
 
